@@ -645,6 +645,25 @@ func RenderVC(hyps []*Term, goal *Term, wantModel bool) string {
 	sb.WriteString("(set-logic ALL)\n")
 	used := map[string]bool{}
 	appNames(all, used)
+	// uninterpreted functions first (recursive definitions in the prelude may mention them)
+	for u := range used {
+		for n, d := range recFunDecls[u] {
+			if _, ok := p.funs[n]; !ok {
+				p.funs[n] = d
+			}
+		}
+	}
+	var fn0 []string
+	for n := range p.funs {
+		fn0 = append(fn0, n)
+	}
+	sort.Strings(fn0)
+	for _, n := range fn0 {
+		sb.WriteString(p.funs[n] + "\n")
+		if ax, ok := funAxioms[n]; ok {
+			sb.WriteString(ax + "\n")
+		}
+	}
 	sb.WriteString(preludeFor(used))
 	var vn []string
 	for n := range p.vars {
@@ -653,17 +672,6 @@ func RenderVC(hyps []*Term, goal *Term, wantModel bool) string {
 	sort.Strings(vn)
 	for _, n := range vn {
 		sb.WriteString(fmt.Sprintf("(declare-const %s %s)\n", smtName(n), p.vars[n]))
-		if ax, ok := funAxioms[n]; ok {
-			sb.WriteString(ax + "\n")
-		}
-	}
-	var fn []string
-	for n := range p.funs {
-		fn = append(fn, n)
-	}
-	sort.Strings(fn)
-	for _, n := range fn {
-		sb.WriteString(p.funs[n] + "\n")
 		if ax, ok := funAxioms[n]; ok {
 			sb.WriteString(ax + "\n")
 		}
